@@ -856,6 +856,12 @@ class C08(Prop):
           'assignment, append, extend, insert, update, setdefault, one-pair rebind, or the constructor of the container -- '
           'then seal(False) / writes inside the received element / pop, del, clear, replacement on the receiving side: '
           'the other tree keeps contents, flags and the sym_parent / sym_path of every node; '
+          'two oracle-only exhaustive grids: a bound pg.Functor (function-based and class-based) x {unsealed, seal(), '
+          'sym_seal()} x accessor flag x 6 as_sealed stacks x 6 allow_writable_accessors stacks x {del f.a, f.a = v, '
+          'rebind(a=v), rebind(a=MISSING_VALUE)} (1728 cases), and Dict.use_value_spec with a COMPLETING spec x Dict shape '
+          '(keys missing at the root / in the nested Dict / nowhere) x {unsealed, seal(), sym_seal(), nested Dict sealed} x '
+          '6 as_sealed stacks x {direct, through the constructor of an object whose field has the spec} (132 cases): a '
+          'node treated as sealed keeps its own contents and flag, and the call is refused iff it would write to one; '
           'plus an exhaustive grid: every entry point x {node, child, '
           'grandchild} x own flag x 9 scope stacks x accessor flag, and every mutating method found by '
           'introspection of the classes\' MRO. Non-trivial: the step addresses a node that is protected '
@@ -869,6 +875,10 @@ class C08(Prop):
       '(__setstate__/__init__) are outside the model; a symbolic node that already has a parent arrives in the model '
       'as a copy of its sub-tree (trees are values there: sharing cannot be expressed, the oracle checks the links '
       'of both trees through sym_parent / sym_path instead)',
+      'pg.Functor receivers and Dict.use_value_spec are checked by the oracle only (no model, no theorem): the '
+      'expected verdict is the precedence table of C08_precedence_sealed / C08_precedence_writable applied to the '
+      'receiver; known findings F381 / F382 (del f.arg ignores the functor\'s own accessor flag / shallow seal; '
+      'fixes/C08-F381.patch) are listed in findings/C08.json',
       'constructors: T-GUARD reads `if sealed: self.seal(True)` in List.__init__ / Dict.__init__ and, for Object, either '
       'the same or the attribute Dict built with sealed=sealed (genCtorSealsDeep); the model of a constructed-sealed '
       'value is constructSealed = sealT true',
